@@ -97,9 +97,30 @@ class UniformPrior(Prior):
 
         physical_value = prior.value_for(unit=0.2)
         """
-        return float(round(
-            super().value_for(unit, ignore_prior_limits=ignore_prior_limits), 14
-        ))
+        value = float(
+            super().value_for(unit, ignore_prior_limits=ignore_prior_limits)
+        )
+        # Python's float rounding (exact, cannot overflow) rather than numpy's
+        # multiply-rint-divide, which returned inf for |value| > 1.8e294.
+        value = round(value, self._decimal_places)
+        if not ignore_prior_limits:
+            # rounding happens after the limit check so it must not leave the limits
+            value = min(max(value, self.lower_limit), self.upper_limit)
+        return value
+
+    @property
+    def _decimal_places(self) -> int:
+        """
+        Values are rounded to 14 decimal places for priors at least 1 wide and to
+        correspondingly more places for narrower priors, so that rounding never
+        collapses a narrow prior (e.g. limits 1e-15, 2e-15) onto a few values.
+        """
+        places = 14
+        width = self.upper_limit - self.lower_limit
+        while width < 1.0 and places < 323:
+            width *= 10.0
+            places += 1
+        return places
 
     def log_prior_from_value(self, value):
         """
